@@ -126,6 +126,13 @@ func c14Record(tier string, seed int64, emit func(interface{})) {
 		for i := range b {
 			b[i] = alpha[rng.Intn(len(alpha))]
 		}
+		if m >= 8 && rng.Intn(10) == 0 { // text that looks like a directive or a FASTA header, inside a field
+			toks := []string{"##FASTA", "###", "##gff-version", ">seq", "##sequence-region"}
+			if strings.Contains(extra, " ") { // only where the field admits blanks
+				toks = append(toks, " ##FASTA x", "see the ##FASTA directive")
+			}
+			return string(b) + toks[rng.Intn(len(toks))]
+		}
 		if m >= 8 && rng.Intn(8) == 0 { // text outside ASCII (the format is UTF-8)
 			return string(b) + []string{"é", "µ", "日本", "Ω", "ß"}[rng.Intn(5)]
 		}
